@@ -244,9 +244,57 @@ def discharge_one(vc):
     vc.status, vc.backend, vc.model, vc.time = st, be, model, time.time() - t0
 
 
+class _Group:
+    """All end-of-path obligations of one path, proved as one conjunction first."""
+
+    def __init__(self, vcs):
+        self.vcs = vcs
+        last = max(vcs, key=lambda v: len(v.pc))
+        self.pc = last.pc
+        self.goal = z3.And(*[v.goal for v in vcs])
+
+
 def discharge(vcs, jobs=None, inline_heavy=True, stop_at_sat=False):
+    if stop_at_sat:
+        for vc in vcs:
+            discharge_one(vc)
+            if vc.status == "sat":
+                break
+        return vcs
+    groups = {}
+    rest = []
     for vc in vcs:
+        if z3.is_true(vc.goal):
+            vc.status, vc.backend, vc.time = "unsat", "simplifier", 0.0
+        elif vc.kind in ("ensures", "on_raise", "raises", "lemma"):
+            groups.setdefault(vc.path, []).append(vc)
+        else:
+            rest.append(vc)
+    for path, g in groups.items():
+        if len(g) == 1:
+            rest.append(g[0])
+            continue
+        grp = _Group(g)
+        t0 = time.time()
+        done = False
+        try:
+            if unsat_abstract(grp.pc, grp.goal):
+                be, done = "z3-abstract", True
+        except (ValueError, z3.Z3Exception):
+            pass
+        if not done:
+            s = z3.Solver()
+            for c in grp.pc:
+                s.add(c)
+            s.add(z3.Not(grp.goal))
+            st, be, model = cli_check(s.to_smt2())
+            done = st == "unsat"
+        if done:
+            dt = (time.time() - t0) / len(g)
+            for vc in g:
+                vc.status, vc.backend, vc.time = "unsat", be, dt
+        else:
+            rest.extend(g)
+    for vc in rest:
         discharge_one(vc)
-        if stop_at_sat and vc.status == "sat":
-            break
     return vcs
